@@ -1,5 +1,6 @@
 """Drives the real ECAgent scheduler (Model / SystemManager / System) and records traces in the
 vocabulary of spec/Scheduler_Trace.tla.  No expectation is computed here."""
+import os
 import sys
 
 from . import common  # noqa: F401  (puts /repo on sys.path)
@@ -68,7 +69,7 @@ class Scripted(System):
                 getattr(w.world, "op_" + act[1])(*act[2:])
 
 
-from ECAgent.Collectors import Collector  # noqa: E402
+from ECAgent.Collectors import Collector, FileCollector  # noqa: E402
 
 
 class ScriptedCollector(Collector):
@@ -76,6 +77,19 @@ class ScriptedCollector(Collector):
 
     def __init__(self, world, obj, prio, start, end, freq, script):
         Collector.__init__(self, obj[0], world.model, priority=prio, frequency=freq, start=start, end=_end_to_py(end))
+        self.world = world
+        self.obj = obj
+        self.script = script
+
+    collect = Scripted.execute
+
+
+class ScriptedFileCollector(FileCollector):
+    """The same scripted system once more, built on FileCollector the way ECAgent's own collectors forward their arguments:
+    by position (id, model, filename, priority, frequency, start, end)."""
+
+    def __init__(self, world, obj, prio, start, end, freq, script):
+        FileCollector.__init__(self, obj[0], world.model, os.devnull, prio, freq, start, _end_to_py(end))
         self.world = world
         self.obj = obj
         self.script = script
@@ -127,7 +141,7 @@ class SchedWorld:
         if inst is None or self.model.systems[obj[0]] is not inst:
             # a system object that is not registered: (re)configure it
             if inst is None:
-                inst = (ScriptedCollector if obj[1] % 4 == 2 else Scripted)(self, obj, real_prio, start, end, freq, script)
+                inst = (ScriptedCollector if obj[1] % 4 == 2 else ScriptedFileCollector if obj[1] % 4 == 0 else Scripted)(self, obj, real_prio, start, end, freq, script)
                 self.objects[obj] = inst
                 if obj[0] not in self.ids:
                     self.ids.append(obj[0])
@@ -391,7 +405,8 @@ def permutation_programs(rng, n_sys=4, prios=(-1, 0, 1), steps=2, limit=None):
     out = []
     for pr in itertools.product(prios, repeat=n_sys):
         for perm in itertools.permutations(range(n_sys)):
-            prog = [["add", [ids[k], 1], pr[k], list(ALWAYS), []] for k in perm]
+            # the systems are of mixed kinds: plain systems, collectors, file collectors (serial 2 / 4, see SchedWorld.add)
+            prog = [["add", [ids[k], (1, 2, 4, 1, 1)[(k + len(out)) % 5]], pr[k], list(ALWAYS), []] for k in perm]
             prog.append(["exec", steps, "execute"])
             out.append(prog)
     if limit and len(out) > limit:
